@@ -2,6 +2,7 @@
 # adopt.sh C04 C17 ... : stage the files of finished property checks and regenerate MANIFEST.json
 cd /verif
 for P in "$@"; do
+  grep -qx "$P" harness/adopted.txt || echo "$P" >> harness/adopted.txt
   p=$(echo $P | tr 'C' 'c')
   git add coq/theories/${P}_*.v harness/$p.py harness/claims/$P.json 2>/dev/null
   [ -d corpus/$P ] && git add corpus/$P
@@ -13,4 +14,4 @@ python3 harness/gen_manifest.py
 python3-vt -c "
 import json, jsonschema
 m=json.load(open('/verif/MANIFEST.json')); jsonschema.validate(m, json.load(open('/root/.vp/MANIFEST.schema.json'))); print('manifest valid:', [c['property_id'] for c in m['checks']])"
-git add MANIFEST.json harness/synth.py
+git add MANIFEST.json harness/synth.py harness/adopted.txt harness/gen_manifest.py
